@@ -106,7 +106,7 @@ theorem asConst_sound (hc : Coherent c ae) :
       · simp at h
       · rename_i ho
         simp at ho
-        simp [eval, asConst_sound hc e v hv, bind_ok, lift_ok, envGetattr_ctx ctx v a ho, okOpt_some h]
+        simp [eval, asConst_sound hc e v hv, bind_ok, lift_ok, envGetattr_ctx ctx v a ho, okOpt_some (constResult_some h)]
     · simp at h
   | .getitem e i, w, h => by
     simp only [asConst] at h
@@ -117,14 +117,14 @@ theorem asConst_sound (hc : Coherent c ae) :
       · rename_i ho
         simp at ho
         simp [eval, asConst_sound hc e v hv, asConst_sound hc i iv hiv, bind_ok, lift_ok,
-          envGetitem_ctx ctx v iv ho, okOpt_some h]
+          envGetitem_ctx ctx v iv ho, okOpt_some (constResult_some h)]
     · simp at h
   | .slice e a b s, w, h => by
     simp only [asConst] at h
     split at h
     · rename_i v av bv sv hv hav hbv hsv
       simp [eval, asConst_sound hc e v hv, asConstOpt_sound hc a av hav, asConstOpt_sound hc b bv hbv,
-        asConstOpt_sound hc s sv hsv, bind_ok, lift_ok, okOpt_some h]
+        asConstOpt_sound hc s sv hsv, bind_ok, lift_ok, okOpt_some (constResult_some h)]
     · simp at h
   | .call _ _, w, h => by simp [asConst] at h
   | .filter e name args, w, h => by
@@ -145,7 +145,7 @@ theorem asConst_sound (hc : Coherent c ae) :
               have h1 := asConst_sound hc e v hv
               have h2 := asConstList_sound hc args vs hvs
               simp only [eval, h1, h2, bind_ok]
-              rw [hae, okOpt_some h]; rfl
+              rw [hae, okOpt_some (constResult_some h)]; rfl
             · simp at h
   | .test e name args, w, h => by
     simp only [asConst, Guards.all, Bool.true_and] at h
@@ -160,7 +160,7 @@ theorem asConst_sound (hc : Coherent c ae) :
           · split at h
             · rename_i v vs hv hvs
               simp [eval, asConst_sound hc e v hv, asConstList_sound hc args vs hvs, bind_ok, lift_ok,
-                okOpt_some h]
+                okOpt_some (constResult_some h)]
             · simp at h
 theorem asConstList_sound (hc : Coherent c ae) :
     (es : List Expr) → (vs : List Val) → asConstList Guards.all t c es = some vs → evalList c ae ctx es = M.ok vs
